@@ -70,6 +70,18 @@ CHECKS = {
         note=COMMON_NOTE + "Reference matcher written from the README table only. Undefined constructs are skipped. Known finding "
              "D6 (multi-byte literal prefix) is listed in known_findings.json.",
         design="4/C16"),
+    "C17": dict(
+        category="exploration",
+        technique="runtime monitoring at library level: bounded-exhaustive round trips through fclones' quote/split and through bash itself",
+        text="Every string of length <=4 over a 21-symbol alphabet of troublesome bytes (204 204 strings), all lists of <=3 "
+             "one-symbol strings (thorough: all pairs of strings of length <=2) and random strings/lists up to 4 KiB are quoted "
+             "with arg::quote / arg::join (verif_api hook); fclones' own splitter and bash (scripts of `printf '%s\\0' ...` "
+             "lines) must both return exactly the original bytes; panics are caught and reported. CLI level: the "
+             "'# Command:' line of real `group` runs with hostile root names and arguments is decoded by bash and compared "
+             "with the real argv, and the JSON header command likewise.",
+        note=COMMON_NOTE + "bash 5 (LC_ALL=C, HOME=/nonexistent-fcv so that tilde expansion is visible) is the oracle. "
+             "The bounded part is exhaustive; everything longer is sampled.",
+        design="4/C17"),
 }
 
 NOT_YET = {}
